@@ -18,6 +18,7 @@ Inductive cf := CImpossible | CFold (escaped viafinalize : bool).
 Record facts := {
   f_out : list (bool * bool * ow);                      (* volatile, autoescape *)
   f_out_balanced : bool;                                (* _output_child_post closes what _pre opened *)
+  f_tdata_no_finalize : bool;                           (* a TemplateData child is never wrapped in finalize *)
   f_const : list (bool * bool * bool * bool * cf);      (* volatile, autoescape, TemplateData, env.finalize *)
   f_fblock : list (bool * bool * ow);
   f_fbuf : list (bool * bool * bw);
@@ -79,7 +80,7 @@ Definition flag_tbl_ok (t : list (bool * bool)) : bool :=
   forallb (fun rt => match find1 t rt with Some b => Bool.eqb b rt | None => false end) bools.
 
 Definition facts_ok (f : facts) : bool :=
-  ow_tbl_ok (f_out f) && f_out_balanced f &&
+  ow_tbl_ok (f_out f) && f_out_balanced f && f_tdata_no_finalize f &&
   forallb const_row_ok (f_const f) && Nat.eqb (length (f_const f)) 16 &&
   ow_tbl_ok (f_fblock f) && bw_tbl_ok (f_fbuf f) && retbuf_ok (f_retbuf f) &&
   match f_assign_plain f with AMarkupSel => true | AEscSel => false end &&
